@@ -4,8 +4,8 @@
 id="$1"; patch="$2"; tier="$3"; shift 3
 cd /tmp/rt/base && git checkout -q -- . && git apply "$patch" || { echo "$id: patch does not apply"; exit 8; }
 t=$(PYTHONPATH=/tmp/rt/base /venv/bin/python -m pytest -q -p no:cacheprovider --timeout=900 2>&1 | tail -1)
-PYTHONPATH=/tmp/rt/base /venv/bin/python /tmp/rt/$id/demo.py > /tmp/demo_$id.seeded.out 2>&1; d1=$?
-PYTHONPATH=/repo /venv/bin/python /tmp/rt/$id/demo.py > /tmp/demo_$id.clean.out 2>&1; d0=$?
+PYTHONPATH=/tmp/rt/base /venv/bin/python ${SEEDROOT:-/tmp/rt}/$id/demo.py > /tmp/demo_$id.seeded.out 2>&1; d1=$?
+PYTHONPATH=/repo /venv/bin/python ${SEEDROOT:-/tmp/rt}/$id/demo.py > /tmp/demo_$id.clean.out 2>&1; d0=$?
 echo "$id: tests: $t | demo clean rc=$d0 seeded rc=$d1"
 cd /verif
 for p in "$@"; do
